@@ -215,8 +215,26 @@ fn exec(live: &mut Live, op: &Value, dict: &Dict) -> Value {
                     let n = op["n"].as_u64().unwrap() as usize;
                     let mut b = vec![0u8; n];
                     live.last_fill = 0;
-                    match s.read(&mut b) {
-                        Ok(k) => ok(rle::to_json(&b[..k])),
+                    // the same transfer through the other methods of io::Read (provided by std in terms of `read` unless the
+                    // library overrides them): each is logged as the `read` it amounts to
+                    let via = op["via"].as_str().unwrap_or("");
+                    let room = s.len().saturating_sub(s.stream_position().unwrap_or(u64::MAX)) as usize;
+                    let r = if via == "exact" && n > 0 && n <= room {
+                        s.read_exact(&mut b).map(|()| n)
+                    } else if via == "vectored" && n >= 2 {
+                        let (x, y) = b.split_at_mut(n / 2);
+                        let mut v = [std::io::IoSliceMut::new(x), std::io::IoSliceMut::new(y)];
+                        s.read_vectored(&mut v)
+                    } else if via == "take" {
+                        let mut got = Vec::new();
+                        let r = Read::by_ref(s).take(n as u64).read_to_end(&mut got);
+                        b[..got.len().min(n)].copy_from_slice(&got[..got.len().min(n)]);
+                        r
+                    } else {
+                        s.read(&mut b)
+                    };
+                    match r {
+                        Ok(k) => ok(rle::to_json(&b[..k.min(n)])),
                         Err(e) => res_err(e),
                     }
                 }
@@ -253,7 +271,13 @@ fn exec(live: &mut Live, op: &Value, dict: &Dict) -> Value {
                 "write" => {
                     let b = rle::from_json(&op["runs"]);
                     live.last_fill = 0;
-                    match s.write(&b) {
+                    let r = if op["via"].as_str() == Some("vectored") && b.len() >= 2 {
+                        let (x, y) = b.split_at(b.len() / 2);
+                        s.write_vectored(&[std::io::IoSlice::new(x), std::io::IoSlice::new(y)])
+                    } else {
+                        s.write(&b)
+                    };
+                    match r {
                         Ok(k) => ok(json!(k)),
                         Err(e) => res_err(e),
                     }
@@ -265,7 +289,15 @@ fn exec(live: &mut Live, op: &Value, dict: &Dict) -> Value {
                 }
                 "seek" => {
                     live.last_fill = 0;
-                    match s.seek(seek_from(op)) {
+                    let via = op["via"].as_str().unwrap_or("");
+                    let r = if via == "rewind" && op["whence"].as_str() == Some("start") && op["d"].as_i64() == Some(0) && op["sym"].as_str().unwrap_or("") == "" {
+                        s.rewind().map(|()| 0)
+                    } else if via == "relative" && op["whence"].as_str() == Some("cur") && op["sym"].as_str().unwrap_or("") == "" {
+                        s.seek_relative(op["d"].as_i64().unwrap_or(0)).and_then(|()| s.stream_position())
+                    } else {
+                        s.seek(seek_from(op))
+                    };
+                    match r {
                         Ok(p) => ok(json!(p)),
                         Err(e) => res_err(e),
                     }
@@ -350,6 +382,9 @@ fn main() {
         reset.insert("streams".into(), hist.get("streams").cloned().unwrap_or(json!([])));
         reset.insert("cfg".into(), hist.get("cfg").cloned().unwrap_or(json!("")));
         reset.insert("maxbuf".into(), json!(hist["maxbuf"].as_i64().unwrap_or(-1)));
+        if hist["nofid"].as_bool() == Some(true) {
+            reset.insert("nofid".into(), json!(true));
+        }
         reset.insert("faulty".into(), json!(hist.get("faults").map(|f| f.is_object()).unwrap_or(false)));
         let live = catch_unwind(AssertUnwindSafe(|| setup(hist, &dict)));
         let mut live = match live {
